@@ -390,6 +390,10 @@ class Check:
         lines = []
         fresh = []
         seen_known = set()
+        # an obligation that no longer holds means the property is no longer shown to hold, whatever the sampled runs said
+        for o in self.obligations:
+            if not o[1] and not any(o[0][:60] in b for b in self.broken):
+                self.broken.append("obligation no longer holds: %s %s" % (o[0], str(o[2])[:400]))
         for fl in self.failures:
             k = self.known(fl)
             if k:
